@@ -298,6 +298,7 @@ DISPATCH = {
     'when_async_arg': dict(types=['i32'], step=False),
     'expr_custom': dict(types=['Ordinal', 'u32', 'String'], step=False, names=[None, '__0_0', '__0_1', None, None], args=[[1, 2], [3], [4]]),
     'slice_args': dict(types=['u64', 'u64', 'u64'], step=False, slice=True),
+    'named_groups': dict(types=['String', 'u32'], step=False, names=[None, 'user_name', 'user_age']),
 }
 
 
@@ -465,7 +466,7 @@ def confirm_dispatch(chk, o, prop):
     got = dict(re.findall(r'DISPATCH (\w+) (.*)', out))
     want = {'then_two_args': 'outcome=passed args=7,seven', 'then_two_args_bad': 'outcome=failed args=-', 'given_step_arg': 'outcome=passed args=5,step arg 5',
             'when_async_arg': 'outcome=passed args=-3', 'expr_custom': 'outcome=passed args=2,5,shelf', 'expr_custom_bad': 'outcome=failed args=-',
-            'slice_args': 'outcome=passed args=1,2,3', 'slice_args_bad': 'outcome=failed args=-'}
+            'slice_args': 'outcome=passed args=1,2,3', 'slice_args_bad': 'outcome=failed args=-', 'named_groups': 'outcome=passed args=bob,42'}
     if not got:
         o.verdict = 'inconclusive'
         o.detail += ' | native replay failed: %s' % out[-300:]
